@@ -9,6 +9,7 @@ CONSTANTS
   EngSensors <- AllS
   Policy <- PolGreedy
   NSteps = 1
+  SpanSteps = 1
   Dt = 1
   OutDt = 1
   Events <- NoEvents
